@@ -1,3 +1,4 @@
+import HqModel.Props.WorkerSide
 import HqModel.Alloc.Run
 import HqModel.Lemmas.AllocInv
 import HqModel.Lemmas.AllocExact
